@@ -10,15 +10,15 @@ From TSG Require Import Model.Cli Proofs.BaseFacts Proofs.Cli.
 
 (* (a) exit status 0 exactly when the arguments are well formed (--output only with --json, every
        --global contains '=', names pairwise distinct), the DSL file loads, the source has no syntax
-       error or --allow-parse-errors is given, and execution — in the mode selected by --lazy, with
-       every --global name=value bound as a string global, value = text after the FIRST '=' — succeeds;
+       error or --allow-parse-errors is given, execution — in the mode selected by --lazy, with every
+       --global name=value bound as a string global, value = text after the FIRST '=' — succeeds, and
+       the --output file (if any) can be written (output_blocked = false);
    (b) then nothing is printed on stderr and the graph written is the one the library returned:
-       --json: its JSON, into the --output file when given (stdout then stays empty; if the file cannot
-       be created the io::Error is discarded by `unwrap_or(())` and nothing is written anywhere),
+       --json: its JSON, in the --output file when given (UNCONDITIONALLY; stdout then stays empty),
        otherwise on stdout; no --json: its pretty form on stdout unless --quiet; no file is touched. *)
 Theorem cli_table : forall o lib,
   (ob_exit (cli o lib) = Exit0 <->
-     usage_error o = false /\
+     usage_error o = false /\ output_blocked o lib = false /\
      exists kvs, map split_once_eq (o_globals o) = map Some kvs /\ NoDup (map fst kvs) /\
        lr_load lib = LoadOk /\ (lr_parse_errors lib = 0 \/ o_allow o = true) /\
        exists g, lr_exec lib (o_lazy o) (string_globals kvs) = ExecOk g) /\
@@ -27,8 +27,7 @@ Theorem cli_table : forall o lib,
      exists kvs g, map split_once_eq (o_globals o) = map Some kvs /\
        lr_exec lib (o_lazy o) (string_globals kvs) = ExecOk g /\
        match o_json o, o_output o with
-       | true, Some p => ob_stdout (cli o lib) = SNothing /\
-                         ob_file (cli o lib) = (if lr_create_ok lib p then FJson g else FNothing)
+       | true, Some _ => ob_stdout (cli o lib) = SNothing /\ ob_file (cli o lib) = FJson g
        | true, None => ob_stdout (cli o lib) = SJson g /\ ob_file (cli o lib) = FNothing
        | false, _ => ob_stdout (cli o lib) = (if o_quiet o then SNothing else SPretty g) /\
                      ob_file (cli o lib) = FNothing
@@ -57,7 +56,8 @@ Theorem diagnostic_iff_failure : forall o lib,
 Proof. exact diag_iff_failure_lemma. Qed.
 
 (* the failure classes: 2 = clap usage error (--output without --json); 1 = malformed/duplicate
-   --global, rejected DSL file, syntax errors without --allow-parse-errors, failed execution *)
+   --global, rejected DSL file, syntax errors without --allow-parse-errors, failed execution, or a
+   --output file that cannot be written *)
 Theorem exit2_iff_usage : forall o lib, ob_exit (cli o lib) = Exit2 <-> usage_error o = true.
 Proof. exact cli_exit2_iff_lemma. Qed.
 
@@ -69,7 +69,9 @@ Theorem exit1_causes : forall o lib,
      (lr_load lib = LoadRejected \/
       (lr_load lib = LoadOk /\ o_allow o = false /\ lr_parse_errors lib <> 0) \/
       (lr_load lib = LoadOk /\ (lr_parse_errors lib = 0 \/ o_allow o = true) /\
-       lr_exec lib (o_lazy o) gl = ExecErr))).
+       lr_exec lib (o_lazy o) gl = ExecErr) \/
+      (lr_load lib = LoadOk /\ (lr_parse_errors lib = 0 \/ o_allow o = true) /\
+       (exists g, lr_exec lib (o_lazy o) gl = ExecOk g) /\ output_blocked o lib = true))).
 Proof. exact cli_exit1_iff_lemma. Qed.
 
 (* the --global loop: succeeds iff every argument contains '=' and the names are pairwise distinct;
@@ -86,13 +88,17 @@ Proof. exact split_once_eq_spec_lemma. Qed.
 Theorem split_once_none : forall s, split_once_eq s = None <-> ~ In 61 s.
 Proof. exact split_once_eq_none_lemma. Qed.
 
-(* what the code does when the --output file cannot be created (`display_json(..).unwrap_or(())`):
-   exit status 0, no graph anywhere, no diagnostic.  The property's "exit 0 ⇒ the JSON is in the file"
-   therefore needs the hypothesis lr_create_ok = true, visible in cli_table (b). *)
-Theorem unwritable_output_silent : forall o lib p,
-  ob_exit (cli o lib) = Exit0 -> o_json o = true -> o_output o = Some p -> lr_create_ok lib p = false ->
-  cli o lib = cli_done SNothing FNothing.
-Proof. exact unwritable_output_silent_lemma. Qed.
+(* a --output file that cannot be created or written (`display_json(..).with_context(..)?`): exit
+   status 1 with a diagnostic, nothing on stdout, no file — whatever the other inputs are *)
+Theorem unwritable_output_fails : forall o lib p,
+  o_json o = true -> o_output o = Some p -> lr_create_ok lib p = false ->
+  cli o lib = cli_fail Exit1.
+Proof. exact unwritable_output_fails_lemma. Qed.
+
+Theorem output_blocked_iff : forall o lib,
+  output_blocked o lib = true <->
+  o_json o = true /\ exists p, o_output o = Some p /\ lr_create_ok lib p = false.
+Proof. exact output_blocked_iff_lemma. Qed.
 
 (* the outcome depends on the library only through the calls main.rs makes: the load result, the
    parse-error count, execution in the SELECTED mode, creation of the GIVEN output path *)
@@ -112,6 +118,6 @@ Example c19_nonvacuous :
   cli (ex_opts false false None false true [[112; 61; 49; 61; 50]]) ex_lib = cli_fail Exit1 /\
   cli (ex_opts true true None false false [[112; 61; 49; 61; 50]]) ex_lib = cli_fail Exit1 /\
   cli (ex_opts true true None false true [[112; 61; 49]; [112; 61]]) ex_lib = cli_fail Exit1 /\
-  cli (ex_opts true true (Some 4) false true [[112; 61; 49; 61; 50]]) ex_lib = cli_done SNothing FNothing /\
+  cli (ex_opts true true (Some 4) false true [[112; 61; 49; 61; 50]]) ex_lib = cli_fail Exit1 /\
   cli (ex_opts true false (Some 3) false true []) ex_lib = cli_fail Exit2.
 Proof. vm_compute. repeat split; reflexivity. Qed.
